@@ -132,7 +132,7 @@ def gen_int(rng, bits, signed):
     lo, hi = (-(1 << (bits - 1)), (1 << (bits - 1)) - 1) if signed else (0, (1 << bits) - 1)
     r = rng.random()
     if r < 0.35:
-        return rng.choice([0, 1, lo, hi, hi - 1, lo + 1, 127, 128, 255, 256, 16383, 16384, -1 if signed else hi, hi >> 1])
+        return max(lo, min(hi, rng.choice([0, 1, lo, hi, hi - 1, lo + 1, 127, 128, 255, 256, 16383, 16384, -1 if signed else hi, hi >> 1])))
     if r < 0.6:
         k = rng.randrange(1, bits + 1)   # around a varint length boundary
         v = (1 << k) + rng.choice([-1, 0, 1])
@@ -470,12 +470,14 @@ def run(ctx):
     ctx.audit("Babylon.Properties.C11")
     if not ctx.quick:
         ctx.leanchecker(["Babylon.Wire.Varint", "Babylon.Wire.Codec", "Babylon.Properties.C11"])
+    ctx.log("proofs built and audited")
     drv = ctx.driver("drv_C11")
     exe, log = build("asan")
     if exe is None:
         ctx.broke("correspondence", "harness/c11.cpp does not build against /repo", log[-1500:])
         return
     dexe, dlog = build("debug")
+    ctx.log("driver and harnesses built")
     if dexe is None:
         ctx.broke("correspondence", "harness/c11.cpp (debug build) does not build against /repo", dlog[-1500:])
     if drv is None:
@@ -504,6 +506,7 @@ def run(ctx):
         for _ in range(n):
             plan.append((tid, show_value(t, gen_value(rng, t))))
     s1 = ["enc %s %s" % p for p in plan]
+    ctx.log("stage 1: %d values" % len(s1))
     o1, rc, err = ctx.run_lines(exe, s1)
     if rc != 0 or len(o1) != len(s1):
         ctx.broke("correspondence", "harness crashed while encoding generated values", "rc=%s answered %d of %d; %s" % (rc, len(o1), len(s1), err[-1200:]))
@@ -552,6 +555,7 @@ def run(ctx):
         if "mut" in m:
             bump(dist["mutations"], m["mut"])
     ctx.notes.append("corpus cases run first: %d" % ncorp)
+    ctx.log("stage 2: %d cases" % len(cases))
 
     # ---- E-SEQ, both builds ------------------------------------------------------------------------
     def handle(diffs, flavor, hexe, margs):
@@ -584,14 +588,17 @@ def run(ctx):
                 bump(dist[key], o.split()[0] if o else "?")
 
     diffs = ctx.eseq(exe, drv, cases, model_args=["ndebug"], chunk=max(1, len(cases) // (2 * NPROC) + 1))
+    ctx.log("E-SEQ ndebug done: %d differences" % len(diffs))
     handle(diffs, "asan-ndebug", exe, ["ndebug"])
     tally(exe, ["ndebug"], "results_ndebug")
+    ctx.log("classified")
     if dexe is not None:
         sub = [i for i, m in enumerate(meta) if "mut" in m or "corpus" in m]
         if ctx.quick:
             sub = [i for i in sub if "corpus" in meta[i] or rng.random() < 0.5]
         dcases = [cases[i] for i in sub]
         ddiffs = ctx.eseq(dexe, drv, dcases, model_args=["debug"], chunk=max(1, len(dcases) // (2 * NPROC) + 1))
+        ctx.log("E-SEQ debug done: %d differences" % len(ddiffs))
         handle([(sub[ci], li, op, a, b) for (ci, li, op, a, b) in ddiffs], "asan-debug", dexe, ["debug"])
         lines = []
         for c in dcases:
